@@ -613,6 +613,7 @@ def cycleStep (key : List Val) (len : Nat) : List (List Val × Nat) → Nat × L
 def cycleKeyVal (auto : Bool) (st : St) (a : Arg) : Val :=
   match evalArg auto st a, a with
   | .undef, .var n => .other n.toList
+  | .str s, _ => .str ⟨s.chars, false⟩      -- `_args_key`: a `Markup` item counts as the equal `str` (fix2-C05)
   | v, _ => v
 
 /-- items a `for` loop visits: a string is a one-item sequence unless empty -/
@@ -761,14 +762,21 @@ def Arg.okE : Arg → Bool
   | .lit s => (isClean s && isEnt s)
   | _ => true
 
-/-- filters for which "every `&` begins an entity" is *proved* to survive on safe values: they concatenate, escape, select whole
-items or return plain text. Not in the list: the entity-breaking `slice split remove* replace* upcase` (counter-examples in
-`Props/C05.lean`), and `downcase capitalize strip lstrip rstrip strip_html strip_newlines url_decode`, for which no
-counter-example exists but no proof was made. -/
+/-- filters for which "every `&` begins an entity" survives on safe values. The complement is exactly the entity-breaking
+`slice split remove remove_first remove_last replace replace_first replace_last upcase` (one counter-example each in
+`Props/C05.lean`) plus `safe` and `newline_to_br`, which the property excludes anyway. -/
 def FName.entFriendly : FName → Bool
-  | .append | .prepend | .escape | .escape_once | .join | .first | .last | .reverse | .concat | .default | .size
-  | .truncate | .truncatewords | .squish | .base64_encode | .base64_decode | .base64_url_safe_encode
-  | .base64_url_safe_decode | .url_encode | .escapejs => true
+  | .slice | .split | .remove | .remove_first | .remove_last | .replace | .replace_first | .replace_last | .upcase
+  | .safe | .newline_to_br => false
+  | _ => true
+
+/-- filters admitted by `autoescape_noop_on_clean`. Excluded: those that *observe* an escaped value (measure, cut, search or
+replace inside it: `size slice truncate truncatewords split remove* replace*`), those that can *introduce* a special character
+(`url_decode base64_decode base64_url_safe_decode newline_to_br`), and `squish` (no proof made). -/
+def FName.noopOk : FName → Bool
+  | .append | .prepend | .upcase | .downcase | .capitalize | .escape | .escape_once | .lstrip | .rstrip | .strip | .strip_html
+  | .strip_newlines | .url_encode | .base64_encode | .base64_url_safe_encode | .safe | .escapejs | .join | .first | .last
+  | .reverse | .concat | .default => true
   | _ => false
 
 def FCall.okE (f : FCall) : Bool := f.name.entFriendly && f.args.all Arg.okE
